@@ -1,0 +1,23 @@
+//go:build verif
+
+// Contracts for the verification machinery under /verif (contract-based deductive
+// verification). This file is comment-only, is excluded from every normal build by the
+// "verif" build tag, and declares nothing. See /verif/DESIGN.md §4.
+
+package compopts
+
+// C04/C17: registering a custom function writes only the table of the configuration being
+// built (a fresh clone of the built-in table: funcs.Clone), never an existing entry
+//@ func AddFunction$1(cfg) (err)
+//@   requires cfg != nil && cfg.Table != nil
+//@   ensures old(haskey(cfg.Table, name)) ==> err != nil
+//@   ensures forall s string :: s != name || err != nil ==> haskey(cfg.Table, s) == old(haskey(cfg.Table, s)) && cfg.Table[s] == old(cfg.Table[s])
+//@   ensures cfg.Table == old(cfg.Table)
+//@   assigns map:cfg.Table
+
+// enabling the experimental functions adds entries to that same table and overrides none
+//@ func WithExperimentalFuncs$1(cfg) (err)
+//@   requires cfg != nil && cfg.Table != nil && cfg.Table != funcs.experimentalTable
+//@   ensures err == nil
+//@   ensures forall s string :: old(haskey(cfg.Table, s)) ==> haskey(cfg.Table, s) && cfg.Table[s] == old(cfg.Table[s])
+//@   assigns map:cfg.Table, cfg.Table
